@@ -241,8 +241,12 @@ class ValueSpecBase(ValueSpec):
     # The default value shall remain acceptable under the narrowed constraints.
     if MISSING_VALUE != self._default and self._default is not None:
       try:
-        self._validate(utils.KeyPath(), self._default)
-      except (TypeError, ValueError) as e:
+        # NOTE: size and element constraints of containers are checked by
+        # `_apply`, value constraints by `_validate`.
+        self._validate(
+            utils.KeyPath(),
+            self._apply(self._default, True, None, utils.KeyPath()))
+      except (TypeError, ValueError, KeyError) as e:
         raise TypeError(
             f'{self!r} cannot extend {base!r}: the default value '
             f'{self._default!r} is not acceptable after extension.') from e
@@ -2843,6 +2847,8 @@ class Union(Generic, ValueSpecBase):
 
   def is_compatible(self, other: ValueSpec) -> bool:
     """Union specific compatibility check."""
+    if not self.is_noneable and other.is_noneable:
+      return False
     if isinstance(other, Union):
       for oc in other.candidates:
         if not self.is_compatible(oc):
